@@ -1,12 +1,12 @@
 package checks
 
 import (
-	"strings"
 	"fmt"
 	"math/rand"
 	"os"
 	"path/filepath"
 	"sort"
+	"strings"
 
 	"github.com/akalin/gopar/par1"
 
